@@ -81,6 +81,10 @@ func toStopOutput(modelStop nextroute.ModelStop) schema.StopOutput {
 	if inputStop, ok := modelStop.Data().(schema.Stop); ok {
 		customData = inputStop.CustomData
 	}
+	// alternate stops carry their input in a wrapper
+	if alternateStop, ok := modelStop.Data().(alternateInputStop); ok {
+		customData = alternateStop.stop.CustomData
+	}
 	return schema.StopOutput{
 		ID: modelStop.ID(),
 		Location: schema.Location{
